@@ -58,6 +58,15 @@ def run(ctx):
             add(L, p)
         if L in LENS:
             add(L, b"", fail=True)
+    # entropy that encodes into the longest (8-letter) and the shortest (3-letter) list words: the longest and shortest phrases
+    # the generator can print, each of which the tool must parse back
+    by_len = {}
+    for idx, w in enumerate(wl):
+        by_len.setdefault(len(w), []).append(idx)
+    for L in LENS:
+        for pool in (by_len[8], by_len[3], by_len[8] + by_len[7]):
+            bits = "".join(format(rng.choice(pool), "011b") for _ in range(L))[:LENS[L] * 8]
+            add(L, int(bits, 2).to_bytes(LENS[L], "big"))
     add(12, rbytes(rng, 16), args=["new"])  # default length
     add(12, rbytes(rng, 16), args=["new", "--length", "12", "--language", "english"])
     add(12, rbytes(rng, 16), args=["new", "-n", "12", "-l", "ENGLISH"])
@@ -86,6 +95,15 @@ def run(ctx):
             ctx.violation("one-request-of-4L/3-bytes", case, [str(LENS[L])], reqs[:5])
         model_terms.append("c12_new %s %s" % (ni(L), coq_list([coq_option(pb(pat))])))
         model_idx.append(i)
+    # every phrase generated under scripted entropy is parsed back by the tool (library and command line)
+    gen_ok = [(i, res[i].stdout.decode().strip()) for i in model_idx if res[i].cls == "ok"]
+    pb_lib = ctx.harness([("mnemonic.parse", ph) for _, ph in gen_ok])
+    pb_cli = ctx.cli([dict(args=["address", "--mnemonic", ph]) for _, ph in gen_ok])
+    for (i, ph), b, c in zip(gen_ok, pb_lib, pb_cli):
+        ctx.count("generated-phrase-parses-back(scripted)")
+        if b.tag != "ok" or b.fields[0].decode() != ph or c.cls != "ok":
+            ctx.violation("generated-phrase-parses-back", dict(op="new under scripted entropy, then parse", entropy=meta[i][1].hex(), phrase=ph, characters=len(ph)),
+                          "accepted, same phrase", dict(library=str(b)[:200], cli=str(c)[:200]))
     ms = ctx.model(model_terms, label="C12", timeout=900)
     for i, m in zip(model_idx, ms):
         if m is None:
